@@ -978,6 +978,50 @@ def matrix_input_case(j, tf, R, tag):
             j.exception("fn=rotation_from_matrix point=no input=%s" % tag, e, case)
 
 
+def result_ownership_case(j, tf):
+    """
+    A conversion called twice with the same (hashable) arguments: the caller edits the first
+    result in place (sets a translation, scales the rotation block), the second result must
+    still be the conversion of the arguments - results are the caller's, not the library's.
+    """
+    run = j.run
+    angles = (0.3, -1.1, 2.0)
+    calls = [("euler_matrix:%s" % ax, lambda ax=ax: tf.euler_matrix(angles[0], angles[1], angles[2], ax))
+             for ax in ("sxyz", "rzyx", "szxz", "ryxy")]
+    calls += [
+        ("quaternion_matrix", lambda: tf.quaternion_matrix((0.5, -0.5, 0.5, 0.5))),
+        ("rotation_matrix", lambda: tf.rotation_matrix(0.7, (0.0, 0.6, 0.8))),
+        ("rotation_matrix:point", lambda: tf.rotation_matrix(0.7, (0.0, 0.6, 0.8), (1.0, 2.0, 3.0))),
+        ("translation_matrix", lambda: tf.translation_matrix((1.0, -2.0, 3.0))),
+        ("scale_matrix", lambda: tf.scale_matrix(2.5)),
+        ("identity_matrix", lambda: tf.identity_matrix()),
+        ("compose_matrix", lambda: tf.compose_matrix(scale=(2.0, 2.0, 2.0), angles=angles, translate=(1.0, 2.0, 3.0))),
+        ("quaternion_from_euler", lambda: tf.quaternion_from_euler(angles[0], angles[1], angles[2], "sxyz")),
+        ("quaternion_about_axis", lambda: tf.quaternion_about_axis(0.9, (1.0, 0.0, 0.0))),
+        ("quaternion_from_matrix", lambda: tf.quaternion_from_matrix(euler_ref(0.3, -1.1, 2.0, "sxyz"))),
+        ("planar_matrix", lambda: tf.planar_matrix(offset=(1.0, 2.0), theta=0.4)),
+        ("spherical_matrix", lambda: tf.spherical_matrix(0.4, 1.2)),
+        ("random_rotation_free:euler_from_matrix", lambda: np.array(tf.euler_from_matrix(euler_ref(0.3, -1.1, 2.0, "sxyz"), "sxyz"))),
+    ]
+    for name, call in calls:
+        case = {"section": "ownership", "fn": name}
+        try:
+            first = np.asarray(call())
+            want = np.array(first, dtype=np.float64, copy=True)
+            edited = False
+            if isinstance(first, np.ndarray) and first.flags.writeable and first.size:
+                first += 1.5  # the caller's own edit of what it was given
+                edited = True
+            second = np.array(call(), dtype=np.float64, copy=True)
+        except Exception as e:
+            j.exception("fn=%s law=results_owned_by_caller" % name.split(":")[0], e, case)
+            continue
+        run.case("ownership:" + name, name, nontrivial=edited)
+        j.check("fn=%s law=results_owned_by_caller" % name.split(":")[0],
+                "a second call with the same arguments returns a value the caller of the first call has edited",
+                dev(second, want), 0.0, case)
+
+
 def good_axis(rng):
     """unit-ish axis whose components are 0 or >= 0.05 (rotation_from_matrix divides by a component
     it compares with 1e-8; the generator stays far from that threshold)"""
@@ -1003,6 +1047,7 @@ def workload(run):
 
     # ---- tables
     euler_table_check(j, tf)
+    result_ownership_case(j, tf)
 
     # ---- exact matrices: the 24 cube rotations (every one is a gimbal case for some convention)
     for R in signed_permutation_rotations():
@@ -1191,6 +1236,8 @@ def replay(run, case):
         euler_case(j, tf, case["axes"], case.get("form", "string"), *case["angles"])
     elif sec == "table":
         euler_table_check(j, tf)
+    elif sec == "ownership":
+        result_ownership_case(j, tf)
     elif sec == "quaternion":
         quaternion_case(j, tf, case["q"], case.get("class", "int"))
     elif sec == "quaternion_pair":
